@@ -41,7 +41,7 @@ def orders_for(tier):
 def bounds(tier):
     return {"bases": len(BASES) if tier != "quick" else 4, "type_patterns": "all 2^n", "density_classes": 6,
             "transforms": 3, "orders": len(orders_for(tier)), "backends": 2, "alphas": ALPHAS,
-            "threshold_factors": [0.5, 0.99, 1.01, 2, "default"]}
+            "threshold_factors": [0.5, 0.99, 1.01, 2, "default", "exactly |min| and the float below it", "0 for exactly non-negative densities"]}
 
 
 def configs(tier, seed):
@@ -60,6 +60,9 @@ def configs(tier, seed):
                     out.append({"basis": bi, "types": list(tp), "dens": dens, "tr": tr, "tier": tier})
     for tr in TRANS:  # upper end of the point-count range
         out.append({"basis": 2, "types": ["spherical", "cartesian"], "dens": "indef", "tr": tr, "tier": tier, "npts": 30})
+    for npts in (1, 2, 3, 4, 5, 6):  # every small point count
+        out.append({"basis": 2, "types": [("cartesian", "spherical")[npts % 2], "cartesian"],
+                    "dens": ("psd", "indef", "diag")[npts % 3], "tr": TRANS[npts % len(TRANS)], "tier": tier, "npts": npts})
     return out
 
 
@@ -72,7 +75,9 @@ def build(cfg):
         shells.append(RefShell(l, cs[i], exps, al.coeffs(K, M, rot=i), cfg["types"][i]))
     c0 = np.array(cs[0])
     pts = [c0, c0 + np.array([0.0, 0.6, -0.3]), c0 + np.array([0.0, 0.0, 0.9])]
-    pts += [np.array(hvec("dens-pt%d" % i, 3, -2.0, 2.0)) for i in range(5 if not cfg.get("npts") else cfg["npts"] - 3)]
+    pts += [np.array(hvec("dens-pt%d" % i, 3, -2.0, 2.0)) for i in range(5 if not cfg.get("npts") else max(3, cfg["npts"] - 3))]
+    if cfg.get("npts") and cfg["npts"] < 8:  # point-count ladder: generic points first
+        pts = (pts[3:] + pts[:3])[:cfg["npts"]]
     return shells, np.array(pts)
 
 
@@ -114,6 +119,53 @@ def expect_threshold(o, name, fn, ref, mag, thr, key):
         o.check(name + " non-negative", bool(np.all(got >= 0)), key=key + "-negative")
 
 
+def exact_boundary(o, name, fn, ref, mag, dens, key):
+    """The clipping rule at its boundary: "a negative value is returned as 0 when its magnitude is AT MOST the
+    threshold".  (a) threshold 0 with a density that is exactly >= 0 in floating point (zero matrix, positive diagonal
+    matrix) must return; (b) with the most negative value b taken from the library's own error message (so it is the
+    number the library compared, bit for bit), threshold |b| must return the clipped values and the next smaller
+    float must raise.  (b) is skipped (noted) if the message carries no parsable number."""
+    import re
+
+    if dens in ("zero", "diag"):
+        try:
+            got = fn(0.0)
+            o.call()
+            o.cmp(name + " threshold 0, no negative value", got, np.clip(ref, 0, None), TOL, mag, key=key + "-thr0")
+        except ValueError as e:
+            o.call()
+            o.check(name + " threshold 0 with no negative value must return", False, detail=str(e)[:150], key=key + "-thr0-raised")
+    rmin = float(np.min(ref))
+    if rmin >= -1e-6 * float(np.max(mag)):
+        return
+    try:
+        fn(0.5 * abs(rmin))
+        o.call()
+        return  # reported by expect_threshold
+    except ValueError as e:
+        o.call()
+        nums = re.findall(r"-\d+\.?\d*(?:[eE][-+]?\d+)?", str(e))
+    b = None
+    for t in nums[::-1]:
+        v = float(t)
+        if abs(v - rmin) <= 1e-6 * abs(rmin):
+            b = v
+            break
+    if b is None:
+        o.notes["boundary_message_unparsed"] = o.notes.get("boundary_message_unparsed", 0) + 1
+        return
+    try:
+        got = fn(abs(b))
+        o.call()
+        o.cmp(name + " threshold == |most negative value|", got, np.clip(ref, 0, None), TOL, mag, key=key + "-boundary")
+    except ValueError as e:
+        o.call()
+        o.check(name + " threshold == |most negative value| must clip, not raise", False,
+                detail={"value": b, "message": str(e)[:120]}, key=key + "-boundary-raised", token=("bd", key))
+    o.raises(name + " threshold just below |most negative value| must raise",
+             lambda: fn(float(np.nextafter(abs(b), 0.0))), key=key + "-boundary-no-raise", exc=ValueError)
+
+
 def evaluate(cfg):
     gb()
     from gbasis.evals import density as dn
@@ -150,6 +202,21 @@ def evaluate(cfg):
     for thr in thrs:
         expect_threshold(o, "evaluate_density thr=%.3g" % thr,
                          lambda t: dn.evaluate_density(gam, g, pts, threshold=t, **kw), rho, rmag, thr, "density")
+    exact_boundary(o, "evaluate_density", lambda t: dn.evaluate_density(gam, g, pts, threshold=t, **kw), rho, rmag,
+                   cfg["dens"], "density")
+    # --- a density matrix that is symmetric only within the tolerance the library accepts (C n C^T accumulated in
+    # single precision, say): the density is still the full double sum over BOTH triangles
+    if cfg["dens"] in ("psd", "indef", "zerodiag") and k > 1:
+        gam_t = gam * (1.0 + 4e-7 * np.triu(np.ones((k, k)), 1))
+        gt_ao = gam_t if T is None else T.T @ gam_t @ T
+        rt, mt = er.evaluate(er.RHO, ev, gt_ao)
+        try:
+            got = dn.evaluate_density(gam_t, g, pts, threshold=1e300, **kw)
+            o.call()
+            o.cmp("evaluate_density, matrix symmetric to 4e-7 only", got, np.clip(rt, 0, None), TOL, mt, key="density-tolerance-symmetric")
+        except ValueError:
+            o.call()  # rejecting such a matrix is acceptable; silently using one triangle is not
+            o.notes["tolerance_symmetric_rejected"] = o.notes.get("tolerance_symmetric_rejected", 0) + 1
     # --- arbitrary-order derivative of the density, both back-ends
     for order in orders_for(cfg.get("tier", "thorough")):
         ref, mag = R(er.deriv_density(order))
@@ -198,6 +265,9 @@ def evaluate(cfg):
                              lambda th: dn.evaluate_posdef_kinetic_energy_density(gam, g, pts, deriv_type=bk,
                                                                                   threshold=th, **kw),
                              t, tmag, thr, "posdef-ked")
+        exact_boundary(o, "evaluate_posdef_kinetic_energy_density " + bk,
+                       lambda th: dn.evaluate_posdef_kinetic_energy_density(gam, g, pts, deriv_type=bk, threshold=th, **kw),
+                       t, tmag, cfg["dens"], "posdef-ked")
     if psd:
         for alpha in ALPHAS:
             ref = np.clip(t, 0, None) + alpha * (lap + z)
